@@ -1,1 +1,3 @@
--- root of the Generated library (files rewritten from the live /repo by harness/regen.py)
+-- root of the Generated library (rewritten from the live /repo by harness/regen.py)
+import Generated.Constants
+import Generated.Registry
